@@ -133,6 +133,15 @@ def run_property(prop, specs, tier="quick", seed=0, registry=None, extra_assumpt
                                                   skipped=cc.get("skipped"))
             for f in cc.get("failures", []):
                 extra_cases.append(dict(_witness=True, spec=key, args=f["args"], clause=f["clause"], origin="cross-check"))
+    # the assumed models of library functions are compared with the real libraries on concrete arguments
+    try:
+        from . import conformance
+
+        conf = conformance.run(seed=seed)
+        selfcheck["external_models_conformance"] = {k: dict(checked=v["checked"], failures=len(v["failures"])) for k, v in conf.items()}
+        errors.extend(conformance.failures(conf))
+    except Exception as e:  # noqa: BLE001
+        errors.append(f"conformance self-check crashed: {type(e).__name__}: {e}")
     # vacuity: at least one obligation generated
     if not obligations:
         selfcheck["vacuity_ok"] = False
